@@ -533,6 +533,10 @@ def tr_wave_tail(fn):
     the decoding in the try block is modelled by hand (C11/Model.v) and tied by
     the correspondence."""
     stmts, _ = normalised(fn)
+    # (since /repo 2399cdc) the data is opened with mode "rb" unless the caller names one: a statement that only
+    # affects which streams wave.open accepts, not the decoding
+    if stmts and ast.unparse(stmts[0]).replace('"', "'") == "kwargs.setdefault('mode', 'rb')":
+        stmts = stmts[1:]
     if len(stmts) != 4 or not isinstance(stmts[1], ast.Try) or not stmts[1].finalbody or stmts[1].handlers:
         raise Unsupported("_wave_read_signal: expected 'open; try/finally; cast; return'")
     # the variable that holds the data is the one returned
